@@ -85,6 +85,10 @@ def step_inputs(seed):
             steps.append({k: inp[k] for k in
                           ('gammadown3', 'Kdown3', 'alpha', 'betaup3',
                            'Tdown4')})
+            # a nearly homogeneous field (mean/spread ~ 1e8): estimators
+            # must not lose it to cancellation
+            steps[-1]['homog_field'] = 5.0 + 1e-8 * np.sin(X + Y) * np.cos(
+                2 * Z) * (1 + t)
             # a simulation field aurel has no name for
             steps[-1]['phi_field'] = 0.3 * np.sin(X + 2 * Y) * np.cos(Z) \
                 + 0.1 * t
